@@ -59,6 +59,19 @@ Proof. split; vm_compute; reflexivity. Qed.
    update, run its action list with the recursive push), `self.downstreams` is read through the model's downs, and the
    model's deliver is that call followed by the release - unless the call unwinds. *)
 From SZ Require Import Base.MiniPyW Base.BridgeEmit.
+Theorem C10_emit_matches_source :
+  forall fuel g depth n w x m,
+  push (S fuel) g depth n w x m =
+  Gen.KN__emit.gen_emit (fun w => downs g w n) (call_update_of fuel g depth n) w x m.
+Proof. exact bridge_emit. Qed.
+Print Assumptions C10_emit_matches_source.
+Theorem C10_emit_matches_source_any_callee :
+  forall emitfrom g depth n w x m,
+  (let ds := downs g w n in
+   fold_left (deliver emitfrom g depth n x m) ds (retain w m (Z.of_nat (length ds)), SOk)) =
+  Gen.KN__emit.gen_emit (fun w => downs g w n) (call_update emitfrom g depth n) w x m.
+Proof. exact bridge_emit_gen. Qed.
+Print Assumptions C10_emit_matches_source_any_callee.
 Theorem C10_retain_refs_matches_source :
   forall w m n, Gen.KN__refs.gen_retain_refs w m n = retain w m n.
 Proof. exact bridge_retain_refs. Qed.
